@@ -948,7 +948,27 @@ func judgeBatch(c *hx.Ctx, ln int, body []byte, rows []storedRow, errKind string
 		return
 	}
 	if valid != len(rows) {
+		// every line is valid by the reference grammar, the block is acknowledged, yet rows are
+		// missing: a line the parser rejects was dropped silently
 		c.Count("verdict:batch_rowcount_differs_from_reference")
+		for i, l := range lines {
+			if i == len(lines)-1 && len(l) == 0 {
+				break
+			}
+			p, reason, stray := refLineQ(l)
+			if p == nil || reason != "" {
+				continue
+			}
+			if _, _, ek := runImpl("", l); ek != "" {
+				k := "valid_line_dropped_silently"
+				if stray {
+					k = "stray_quote"
+				}
+				c.Violation(ln, k, fmt.Sprintf("line %d of %d (%s) is valid, is rejected (%s) by the parser, and the request is acknowledged: dropped silently; %d rows stored", i+1, len(lines), short(l), ek, len(rows)))
+				return
+			}
+		}
+		c.Violation(ln, "batch_row_count", fmt.Sprintf("%d valid lines, %d rows stored: %s", valid, len(rows), short(body)))
 	}
 }
 
